@@ -51,6 +51,66 @@ static void do_kickseq()
     }
 }
 
+// kickp <id> <dir:x|y> <n> <nb> <it> <clamp:0|1> ; fill (nb, sums to 1, may contain 0) ; offs (n*nb) ; data (nb*n*n)
+// The same kick as `kick` (same output format, so the model and every oracle of `kick` apply), but under the conditions in
+// which a map is used inside a run and which must not matter (C01_kick_apply_every_cell: every cell of every bunch of the
+// output is written, from data_in and the table only):
+//  * the grids are built with the filling pattern <fill> and the data are then written explicitly (getData()), so a bucket
+//    the pattern declares empty may hold charge;
+//  * what the input grid caches besides its data (bunch / energy profile, integral, filling, moments) dates from an EARLIER
+//    state - the data with two of every three columns and rows and every second bunch emptied - as it does for grid_t2 / grid_t3 in main(),
+//    whose caches are never refreshed after set-up;
+//  * the target grid holds earlier charge (3.25 in every cell);
+//  * the interpolation is constructed with the given clamp flag (the CPU path ignores it: Gen_KickLoop reads no _clamp).
+// After the output is printed the kick is applied a second time with every cache refreshed from the actual data, the set
+// filling pattern uniform and a different earlier content of the target (-12345): `cachedep <#cells that differ> <first>`.
+static void do_kickp()
+{
+    std::string id = next();
+    std::string dir = next();
+    unsigned n = nextl(), nb = nextl(), it = nextl(), clamp = nextl();
+    std::vector<float> fill(nb);
+    for (auto& f : fill) f = nextf();
+    std::vector<meshaxis_t> offs(n * nb);
+    for (auto& o : offs) o = nextf();
+    auto in = mkps(n, nb, -6, 6, -6, 6, &fill);
+    auto out = mkps(n, nb, -6, 6, -6, 6, &fill);
+    const size_t tot = (size_t)nb * n * n;
+    std::vector<meshdata_t> data(tot);
+    for (auto& v : data) v = nextf();
+    // caches of an earlier state
+    for (size_t i = 0; i < tot; i++) {
+        const unsigned b = i / ((size_t)n * n), x = (i / n) % n, y = i % n;
+        in->getData()[i] = (b % 2 == 0 && x % 3 == 0 && y % 3 == 0) ? data[i] : 0;
+    }
+    in->updateXProjection(); in->updateYProjection(); in->integrate();
+    for (size_t i = 0; i < tot; i++) in->getData()[i] = data[i];
+    for (size_t i = 0; i < tot; i++) out->getData()[i] = 3.25f;
+    KickMap km(in, out, static_cast<SourceMap::InterpolationType>(it), clamp != 0,
+               dir == "x" ? KickMap::Axis::x : KickMap::Axis::y, nullptr);
+    km.swapOffset(offs);
+    km.apply();
+    printf("case %s\ntable", id.c_str());
+    for (size_t k = 0; k < (size_t)n * nb * it; k++) { printf(" %u", km._hinfo[k].index); pf(km._hinfo[k].weight); }
+    printf("\nout");
+    for (size_t i = 0; i < tot; i++) pf(out->getData()[i]);
+    std::vector<meshdata_t> ref(out->getData(), out->getData() + tot);
+    in->updateXProjection(); in->updateYProjection(); in->integrate();
+    {
+        auto& fs = const_cast<std::vector<integral_t>&>(in->_filling_set);
+        std::fill(fs.begin(), fs.end(), static_cast<integral_t>(1.0 / nb));
+        auto& fo = const_cast<std::vector<integral_t>&>(out->_filling_set);
+        std::fill(fo.begin(), fo.end(), static_cast<integral_t>(1.0 / nb));
+    }
+    for (size_t i = 0; i < tot; i++) out->getData()[i] = -12345.0f;
+    km.apply();
+    size_t nd = 0, first = 0;
+    for (size_t i = 0; i < tot; i++)
+        if (std::memcmp(&ref[i], &out->getData()[i], sizeof(meshdata_t)) != 0) { if (!nd) first = i; nd++; }
+    printf("\ncachedep %zu %zu", nd, first);
+    printf("\nend\n");
+}
+
 // coeffs <id> <it> <count> f...   -> weights for each f
 static void do_coeffs()
 {
@@ -192,5 +252,5 @@ static void do_coeffsweep()
 
 int main(int argc, char** argv)
 {
-    return run_main(argc, argv, {{"kick", do_kick}, {"kickseq", do_kickseq}, {"coeffs", do_coeffs}, {"rot", do_rot}, {"rotg", do_rotg}, {"coeffsweep", do_coeffsweep}});
+    return run_main(argc, argv, {{"kick", do_kick}, {"kickseq", do_kickseq}, {"kickp", do_kickp}, {"coeffs", do_coeffs}, {"rot", do_rot}, {"rotg", do_rotg}, {"coeffsweep", do_coeffsweep}});
 }
